@@ -60,11 +60,12 @@ def _datasets(d, full):
     sets = [[p] for p in pts]
     sub = list(itertools.product([0.25, 0.3, 0.77], repeat=d))[: 9]
     sets += [[p, q] for p, q in itertools.combinations(sub, 2)]
+    sets += [[p, p] for p in sub[:4]] + [[sub[0], sub[1], sub[0]]]      # duplicate samples count as often as they occur
     return sets
 
 
-LABELS = {"none": None, "pm1": lambda n: np.array([1.0, -1.0][:n] if n > 1 else [1.0]), "neg": lambda n: np.array([-1.0] * n),
-          "frac": lambda n: np.array([1.0, -0.5][:n] if n > 1 else [-0.5])}
+LABELS = {"none": None, "pm1": lambda n: np.array([1.0, -1.0, 1.0][:n] if n > 1 else [1.0]), "neg": lambda n: np.array([-1.0] * n),
+          "frac": lambda n: np.array([1.0, -0.5, 0.25][:n] if n > 1 else [-0.5])}
 
 
 def _with_threshold(value, fn):
